@@ -191,6 +191,10 @@ EXPORT errno_t _wcstombs_s_chk(size_t *restrict retvalp, char *restrict dest,
         return RCNEGATE(ESOVRLP);
     }
 
+    /* never let libc store more than dmax bytes */
+    if (dest && len > dmax) {
+        len = dmax;
+    }
     /* l is the strlen, excluding NULL */
     l = *retvalp = wcstombs(dest, src, len);
 
